@@ -317,6 +317,7 @@ class Evaluator:
         self.inlined: List[str] = []
         self.alloc_loops: Dict[str, Tuple[str, ...]] = {}
         self.list_defs: Dict[str, tuple] = {}  # local bound to a list display: (loop stack, live) at the binding
+        self.dict_defs: Dict[str, tuple] = {}
 
     # ------------------------------------------------------------------ plumbing
     def fresh(self, prefix):
@@ -460,6 +461,16 @@ class Evaluator:
 
     def stmt(self, st, live):
         if isinstance(st, ast.Expr) and isinstance(st.value, ast.Call) and isinstance(st.value.func, ast.Attribute) \
+                and st.value.func.attr == "update" and isinstance(st.value.func.value, ast.Name) \
+                and len(st.value.args) == 1 and not st.value.keywords:
+            # `d = {..}` ... `d.update(other)` on the same path: d is the display {.., **other}
+            nm = st.value.func.value.id
+            cur = self.env.get(nm)
+            if cur is not None and cur[0] == "dict" and cur[1] and self.dict_defs.get(nm) == (tuple(self.loop_stack), live):
+                arg = self.ev(st.value.args[0], live)
+                self.env[nm] = fold_sub(("dict", cur[1] + ((("dstar",), arg),)))
+                return live
+        if isinstance(st, ast.Expr) and isinstance(st.value, ast.Call) and isinstance(st.value.func, ast.Attribute) \
                 and st.value.func.attr in ("append", "extend") and isinstance(st.value.func.value, ast.Name) \
                 and len(st.value.args) == 1 and not st.value.keywords:
             # `xs = [a, b]` ... `xs.append(c)` on the same path: xs is the display [a, b, c]
@@ -486,6 +497,10 @@ class Evaluator:
                     self.list_defs[st.targets[0].id] = (tuple(self.loop_stack), live)
                 else:
                     self.list_defs.pop(st.targets[0].id, None)
+                if val[0] == "dict" and val[1]:
+                    self.dict_defs[st.targets[0].id] = (tuple(self.loop_stack), live)
+                else:
+                    self.dict_defs.pop(st.targets[0].id, None)
             for t in st.targets:
                 self.assign(t, val, live, st)
             return live
@@ -499,6 +514,17 @@ class Evaluator:
         if isinstance(st, ast.AugAssign):
             cur = self.ev(st.target, live)
             val = self.ev(st.value, live)
+            if isinstance(st.op, ast.Add) and isinstance(st.target, ast.Name) and cur[0] == "alloc" and cur[1] == "list":
+                # xs += [a] mutates the list in place: xs.append(a) / xs.extend(...)
+                if val[0] == "list" and len(val[1]) == 1 and val[1][0][0] != "star":
+                    self.emit("call", live, ("call", ("attr", cur, "append"), (val[1][0],), ()), st)
+                else:
+                    self.emit("call", live, ("call", ("attr", cur, "extend"), (val,), ()), st)
+                return live
+            if isinstance(st.op, ast.Add) and isinstance(st.target, ast.Name) and cur[0] == "list" and val[0] in ("list", "tuple") \
+                    and self.list_defs.get(st.target.id) == (tuple(self.loop_stack), live):
+                self.env[st.target.id] = ("list", cur[1] + val[1])
+                return live
             op = BIN_AST.get(type(st.op), "?")
             self.assign(st.target, ("bin", op, cur, val), live, st)
             return live
@@ -568,6 +594,8 @@ class Evaluator:
             return AND(live, c)
         if isinstance(st, (ast.Global, ast.Nonlocal)):
             return live
+        if isinstance(st, ast.Match):
+            return self.match_(st, live)
         raise AnalysisError(f"unsupported statement {type(st).__name__}", site=f"{self.module.relpath}:{st.lineno}")
 
     def _alloc(self, node, val, name, st):
@@ -590,6 +618,12 @@ class Evaluator:
         if isinstance(target, ast.Name):
             self.env[target.id] = val
         elif isinstance(target, (ast.Tuple, ast.List)):
+            if val[0] == "call" and val[1][0] == "global" and val[1][2] == "class":
+                ci = self.index.class_by_qual(val[1][1])
+                if ci is not None and any(b.split(".")[-1] == "NamedTuple" for b in ci.ext_bases) and not ci.bases:
+                    rv = self._record_values(ci, val)
+                    if rv is not None and len(rv) == len(target.elts):
+                        val = ("tuple", tuple(rv.values()))
             if val[0] in ("tuple", "list") and len(val[1]) == len(target.elts) and not any(
                     isinstance(e, ast.Starred) for e in target.elts):
                 for e, v in zip(target.elts, val[1]):
@@ -637,6 +671,98 @@ class Evaluator:
         self.env = merged
         return join_live(l_then, l_else)
 
+    def _pattern(self, pat, subj, live):
+        """Condition under which `pat` matches `subj` (bindings are made in self.env); None = not expressible."""
+        if isinstance(pat, ast.MatchValue):
+            return mk_cmp("eq", subj, self.ev(pat.value, live))
+        if isinstance(pat, ast.MatchSingleton):
+            return mk_cmp("is", subj, ("const", pat.value))
+        if isinstance(pat, ast.MatchOr):
+            parts = [self._pattern(p, subj, live) for p in pat.patterns]
+            return None if any(p is None for p in parts) else OR(*parts)
+        if isinstance(pat, ast.MatchAs):
+            if pat.pattern is None:
+                if pat.name is not None:
+                    self.env[pat.name] = subj
+                return TRUE
+            c = self._pattern(pat.pattern, subj, live)
+            if c is not None and pat.name is not None:
+                self.env[pat.name] = subj
+            return c
+        if isinstance(pat, ast.MatchClass) and not pat.patterns and not pat.kwd_patterns:
+            return ("call", ("builtin", "isinstance"), (subj, self.ev(pat.cls, live)), ())
+        return None
+
+    def match_(self, st, live):
+        """match subject: case <value | None | a | b | _ | name | Class()> [if guard]: ...  as an if/elif chain."""
+        subj = self.ev(st.subject, live)
+        env0 = dict(self.env)
+        rest = live
+        outs = []
+        for case in st.cases:
+            self.env = dict(env0)
+            c = self._pattern(case.pattern, subj, rest)
+            if c is None:
+                raise AnalysisError("unsupported match pattern " + ast.unparse(case.pattern),
+                                    site=f"{self.module.relpath}:{case.pattern.lineno}")
+            if case.guard is not None:
+                c = AND(c, self.ev(case.guard, AND(rest, c)))
+            l_case = self.block(case.body, AND(rest, c))
+            outs.append((c, l_case, self.env))
+            rest = AND(rest, NOT(c))
+            if rest == FALSE:
+                break
+        # fall-through (no case matched)
+        outs.append((TRUE, rest, dict(env0)))
+        alive = [(c, l, e) for c, l, e in outs if l != FALSE]
+        if not alive:
+            self.env = dict(env0)
+            return FALSE
+        merged = {}
+        keys = set()
+        for _, _, e in outs:
+            keys |= set(e)
+        # value of each local: conditional chain over the cases in order
+        for k in keys:
+            v = None
+            for c, l, e in reversed(alive):
+                val = e.get(k, ("unbound", k))
+                v = val if v is None else ITE(c, val, v)
+            merged[k] = v
+        self.env = merged
+        out = alive[0][1]
+        for _, l, _ in alive[1:]:
+            out = join_live(out, l)
+        return out
+
+    def _aug_only_lists(self, stmts, names) -> List[str]:
+        """names bound to a list accumulator that the statements only touch by `name += ...` (an in-place extend)"""
+        cand = [n for n in names if self.env.get(n, ("?",))[0] == "alloc" and self.env[n][1] == "list"]
+        if not cand:
+            return []
+        bad = set()
+
+        class V(ast.NodeVisitor):
+            def visit_AugAssign(s, n):
+                if isinstance(n.target, ast.Name) and isinstance(n.op, ast.Add):
+                    s.visit(n.value)
+                    return
+                s.generic_visit(n)
+
+            def visit_Name(s, n):
+                if isinstance(n.ctx, (ast.Store, ast.Del)):
+                    bad.add(n.id)
+
+            def visit_FunctionDef(s, n):
+                pass
+
+            def visit_Lambda(s, n):
+                pass
+
+        for st in stmts:
+            V().visit(st)
+        return [n for n in cand if n not in bad]
+
     def _assigned_names(self, stmts) -> List[str]:
         out = []
 
@@ -664,6 +790,8 @@ class Evaluator:
         it = self.ev(st.iter, live)
         lid = self.fresh("L")
         assigned = self._assigned_names(st.body)
+        keep = self._aug_only_lists(st.body, assigned)
+        assigned = [n for n in assigned if n not in keep]
         self.loops[lid] = LoopInfo(lid, "for", it, st, self.loop_stack[-1] if self.loop_stack else None,
                                    ast.unparse(st.target), (), tuple(assigned), bool(st.orelse))
         env0 = dict(self.env)
@@ -689,6 +817,8 @@ class Evaluator:
     def while_(self, st, live):
         lid = self.fresh("L")
         assigned = self._assigned_names(st.body)
+        keep = self._aug_only_lists(st.body, assigned)
+        assigned = [n for n in assigned if n not in keep]
         env0 = dict(self.env)
         for n in assigned:
             if n in self.env:
@@ -799,6 +929,10 @@ class Evaluator:
             return ("attr", base, n.attr)
         if base[0] == "ext":
             return ("ext", base[1] + "." + n.attr)
+        if base[0] == "call" and base[1][0] == "global" and base[1][2] == "class":
+            v = self._record_field(base, n.attr)
+            if v is not None:
+                return v
         if base[0] == "global" and base[2] == "class":
             s = self.index._descend(_sym_from_term(self.index, base), [n.attr], 0)
             if s is not None and s.kind in ("func",):
@@ -808,6 +942,37 @@ class Evaluator:
                 return sym_term(s)
             return ("attr", base, n.attr)
         return ("attr", base, n.attr)
+
+    def _record_field(self, call, attr):
+        """Point(x=a, y=b).x -> a for NamedTuple / dataclass records defined in the package (plain annotated fields)."""
+        ci = self.index.class_by_qual(call[1][1])
+        if ci is None:
+            return None
+        is_nt = any(b.split(".")[-1] == "NamedTuple" for b in ci.ext_bases)
+        is_dc = any(ast.unparse(d).split("(")[0].split(".")[-1] == "dataclass" for d in ci.node.decorator_list)
+        if not (is_nt or is_dc) or ci.bases:
+            return None
+        vals = self._record_values(ci, call)
+        return None if vals is None else vals.get(attr)
+
+    def _record_values(self, ci, call):
+        """{field: argument term} of a record constructor call, or None"""
+        fields = [st.target.id for st in ci.node.body if isinstance(st, ast.AnnAssign) and isinstance(st.target, ast.Name)]
+        if any(a[0] == "star" for a in call[2]) or any(k == "**" for k, _ in call[3]) or len(call[2]) > len(fields):
+            return None
+        if any(isinstance(st, ast.FunctionDef) and st.name in ("__post_init__", "__new__", "__init__") for st in ci.node.body):
+            return None
+        vals = dict(zip(fields, call[2]))
+        for k, v in call[3]:
+            if k not in fields or k in vals:
+                return None
+            vals[k] = v
+        for st in ci.node.body:
+            if isinstance(st, ast.AnnAssign) and isinstance(st.target, ast.Name) and st.target.id not in vals:
+                if st.value is None:
+                    return None
+                vals[st.target.id] = self.ev_quiet(st.value)
+        return {f: vals[f] for f in fields}
 
     def e_Subscript(self, n, live):
         base = self.ev(n.value, live)
@@ -952,6 +1117,9 @@ class Evaluator:
             while len(args) < len(sig) and sig[len(args)] in kd:
                 args.append(kd.pop(sig[len(args)]))
             named = sorted(kd.items(), key=lambda kv: kv[0])
+        norm = self._norm_call(f, args, named, spreads, live, n)
+        if norm is not None:
+            return norm
         if f == ("builtin", "slice") and "slice" not in self.env and not named and not spreads and 1 <= len(args) <= 3 \
                 and not any(a[0] == "star" for a in args):
             # slice(a, b[, c]) is the subscript a:b[:c]
@@ -964,6 +1132,112 @@ class Evaluator:
         ev = self.emit("call", live, t, n)
         ev.kw_order = [kv[0] for kv in kws]  # type: ignore[attr-defined]
         return t
+
+    # ------------------------------------------------------------------ spelling normal forms of calls
+    OPERATOR_BIN = {"add": "+", "sub": "-", "mul": "*", "truediv": "/", "floordiv": "//", "mod": "%", "pow": "**"}
+    OPERATOR_CMP = {"lt": "lt", "le": "le", "eq": "eq", "ne": "ne", "gt": "gt", "ge": "ge", "is_": "is", "is_not": "isnot"}
+
+    def _apply_fn(self, fn, arg_terms):
+        """value of fn(*arg_terms) when fn is a lambda / local function with a single return, else the call term"""
+        if fn[0] == "lambda" and fn[1] in self.lambdas:
+            ls = self.lambdas[fn[1]]
+            rets = ls.raw_returns
+            if len(rets) == 1 and len(ls.params) == len(arg_terms) and not ls.kwarg and not ls.vararg \
+                    and not any(e.kind in ("store", "raise", "yield", "delete") for e in ls.events):
+                return subst(rets[0].term, {("param", p): a for p, a in zip(ls.params, arg_terms)})
+        return ("call", fn, tuple(arg_terms), ())
+
+    def _norm_call(self, f, args, named, spreads, live, n):
+        plain = not named and not spreads and not any(a[0] == "star" for a in args)
+        # list(<generator expression>) is the list comprehension (same for set / dict of pairs)
+        if f in (("builtin", "list"), ("builtin", "set")) and plain and len(args) == 1 and args[0][0] == "comp" and args[0][1] == "gen" \
+                and f[1] not in self.env:
+            return ("comp", f[1], args[0][2], args[0][3])
+        if f == ("builtin", "dict") and "dict" not in self.env:
+            if plain and len(args) == 1 and args[0][0] == "comp" and args[0][1] == "gen" and args[0][2][0] == "tuple" and len(args[0][2][1]) == 2:
+                return ("comp", "dict", ("kv", args[0][2][1][0], args[0][2][1][1]), args[0][3])
+            if not args and not any(a[0] == "star" for a in args):
+                # dict(a=1, **b) is the display {"a": 1, **b}
+                items = [(("const", k), v) for k, v in named] + [(("dstar",), v) for _, v in spreads]
+                if items:
+                    return fold_sub(("dict", tuple(items)))
+        # map(f, xs) / filter(p, xs) are generator expressions
+        if f == ("builtin", "map") and "map" not in self.env and plain and len(args) == 2:
+            lid = self.fresh("L")
+            self.loops[lid] = LoopInfo(lid, "comp", args[1], n, self.loop_stack[-1] if self.loop_stack else None, "_")
+            return ("comp", "gen", self._apply_fn(args[0], [("elem", lid)]), ((lid, args[1], ()),))
+        if f == ("builtin", "filter") and "filter" not in self.env and plain and len(args) == 2:
+            lid = self.fresh("L")
+            el = ("elem", lid)
+            cond = el if args[0] == NONE else self._apply_fn(args[0], [el])
+            self.loops[lid] = LoopInfo(lid, "comp", args[1], n, self.loop_stack[-1] if self.loop_stack else None, "_", (cond,))
+            return ("comp", "gen", el, ((lid, args[1], (cond,)),))
+        # functools.partial(g, a, k=v)(b) is g(a, b, k=v)
+        if f[0] == "call" and f[1] == ("ext", "functools.partial") and f[2] and not any(k == "**" for k, _ in f[3]):
+            kws = dict(f[3])
+            kws.update(dict(named))
+            again = self._norm_call(f[2][0], list(f[2][1:]) + list(args), sorted(kws.items()), list(spreads), live, n)
+            if again is not None:
+                return again
+            merged = ("call", f[2][0], tuple(f[2][1:]) + tuple(args), tuple(sorted(kws.items())) + tuple(spreads))
+            inl = self._try_inline(merged[1], merged, live, n)
+            if inl is not None:
+                return inl
+            ev = self.emit("call", live, merged, n)
+            ev.kw_order = sorted(kws)  # type: ignore[attr-defined]
+            return merged
+        # operator.add(a, b) is a + b, operator.lt(a, b) is a < b, ...
+        if f[0] == "ext" and f[1].startswith("operator.") and plain:
+            name = f[1].split(".", 1)[1]
+            if name in self.OPERATOR_BIN and len(args) == 2:
+                return ("bin", self.OPERATOR_BIN[name], args[0], args[1])
+            if name in self.OPERATOR_CMP and len(args) == 2:
+                return mk_cmp(self.OPERATOR_CMP[name], args[0], args[1])
+            if name == "contains" and len(args) == 2:
+                return mk_cmp("in", args[1], args[0])
+            if name == "getitem" and len(args) == 2:
+                return ("sub", args[0], args[1])
+            if name == "not_" and len(args) == 1:
+                return NOT(args[0])
+            if name == "neg" and len(args) == 1:
+                return ("neg", args[0])
+        # "{}:{}".format(a, b) is the f-string
+        if f[0] == "attr" and f[2] == "format" and f[1][0] == "const" and isinstance(f[1][1], str) and not spreads \
+                and not any(a[0] == "star" for a in args):
+            parts = self._format_parts(f[1][1], args, dict(named))
+            if parts is not None:
+                return ("fstr", tuple(parts))
+        return None
+
+    @staticmethod
+    def _format_parts(fmt, args, kws):
+        import string
+        out = []
+        auto = 0
+        try:
+            for lit, field, spec, conv in string.Formatter().parse(fmt):
+                if lit:
+                    out.append(("const", lit))
+                if field is None:
+                    continue
+                if spec or conv not in (None, "s", "r") or any(ch in field for ch in ".["):
+                    return None
+                if field == "":
+                    if auto >= len(args):
+                        return None
+                    out.append(args[auto])
+                    auto += 1
+                elif field.isdigit():
+                    if int(field) >= len(args):
+                        return None
+                    out.append(args[int(field)])
+                elif field in kws:
+                    out.append(kws[field])
+                else:
+                    return None
+        except ValueError:
+            return None
+        return out
 
     # ------------------------------------------------------------------ helper inlining
     def _inline_target(self, f):
@@ -1242,11 +1516,24 @@ def _handler_names(h: ast.ExceptHandler) -> Tuple[str, ...]:
     return (ast.unparse(h.type),)
 
 
+_HOME: Dict[str, List[str]] = {}
+for _m, _names in PINNED.items():
+    for _n in _names:
+        if "." not in _n:
+            _HOME.setdefault(_n, []).append(_m)
+
+
 def sym_term(s: Sym) -> tuple:
     if s.kind == "module":
         return ("global_module", s.qual)
     if s.kind == "ext":
         return ("ext", s.qual[4:])
+    if s.kind == "func" and ":" in s.qual:
+        # a reference-tree function that moved to another module keeps the name the rules know it by
+        mod, name = s.qual.split(":")
+        homes = _HOME.get(name, [])
+        if len(homes) == 1 and homes[0] != mod and name not in PINNED.get(mod, ()):
+            return ("global", f"{homes[0]}:{name}", s.kind)
     return ("global", s.qual, s.kind)
 
 
